@@ -14,16 +14,17 @@ RULE = ("ruler scripts: 0..9 rules with marks from a small pool, aliases (shared
 
 
 def gen_items(rng):
-    n = rng.choice([0, 1, 2, 3, 3, 4, 5, 6, 7, 9])
-    pool = list(range(1, rng.choice([2, 3, 5, 7]) + 1))
-    absent = [20, 21]
+    n = rng.choice([0, 1, 2, 3, 3, 4, 5, 6, 7, 9, 9, 21, 24, 33, 48])
+    big = n > 12          # long chains, mostly unconstrained, priority classes interleaved (seed C09-8: unstable pre-sort)
+    pool = list(range(1, (n if big else rng.choice([2, 3, 5, 7])) + 1))
+    absent = [pool[-1] + 50, pool[-1] + 51] if pool else [20, 21]
     items = []
     for i in range(n):
-        marks = [rng.choice(pool)]
-        for _ in range(rng.choice([0, 0, 0, 1, 1, 2])):
+        marks = [pool[i] if big and rng.random() < 0.9 else rng.choice(pool)]
+        for _ in range(rng.choice([0, 0, 0, 1, 1, 2]) if not big else rng.choice([0, 0, 0, 0, 1])):
             marks.append(rng.choice(pool))
         cons = []
-        for _ in range(rng.choice([0, 0, 1, 1, 2, 3])):
+        for _ in range(rng.choice([0, 0, 1, 1, 2, 3]) if not big else rng.choice([0, 0, 0, 0, 0, 1])):
             kind = rng.choice("bbfffq")
             tgt = rng.choice(pool + pool + absent) if rng.random() < 0.9 else marks[0]
             cons.append((kind, tgt))
